@@ -8,6 +8,7 @@ pub mod c05;
 pub mod txgen;
 pub mod c06;
 pub mod c07;
+pub mod c17;
 pub mod c18;
 pub mod c19;
 pub mod c09;
@@ -20,7 +21,7 @@ pub mod c16;
 use crate::engine::{Ctx, Tier};
 use serde_json::Value;
 
-pub const ALL: &[&str] = &["C01", "C04", "C05", "C06", "C07", "C09", "C11", "C15", "C16", "C18", "C19"];
+pub const ALL: &[&str] = &["C01", "C04", "C05", "C06", "C07", "C09", "C11", "C15", "C16", "C17", "C18", "C19"];
 
 pub fn run(id: &str, tier: Tier, seed: u64) -> Option<i32> {
     macro_rules! go {
@@ -40,6 +41,7 @@ pub fn run(id: &str, tier: Tier, seed: u64) -> Option<i32> {
         "C11" => go!(c11, "C11"),
         "C15" => go!(c15, "C15"),
         "C16" => go!(c16, "C16"),
+        "C17" => go!(c17, "C17"),
         "C18" => go!(c18, "C18"),
         "C19" => go!(c19, "C19"),
         _ => None,
@@ -57,6 +59,7 @@ pub fn replay(id: &str, v: &Value) -> Option<i32> {
         "C11" => c11::replay(v),
         "C15" => c15::replay(v),
         "C16" => c16::replay(v),
+        "C17" => c17::replay(v),
         "C18" => c18::replay(v),
         "C19" => c19::replay(v),
         _ => None,
